@@ -3,7 +3,7 @@
 (* Enumeration of exactly stationary lattice instances for the statistics  *)
 (* properties C12, C13, C14, and of under-determined shapes N <= M+P.      *)
 (***************************************************************************)
-EXTENDS VPStats, TLC, Json
+EXTENDS VPStats, TLC, Json, SequencesExt
 
 CONSTANTS Tier
 
@@ -63,8 +63,10 @@ ThCovSym == stage = 2 => CovSym(out)
 ThCovDiag == stage = 2 => CovDiagNonNeg(out)
 ThCorr == stage = 2 => Corr2Le1(out)
 ThBand == stage = 2 => BandNonNeg(out)
-ThTable == TQ2Consistent /\ TQMonotone
+ThTable == TQ2Consistent /\ TQMonotone /\ TQDecreasing
 ThWScale == stage = 2 => WeightScaleLaw(inst.fam, inst.x, inst.w, inst.a, inst.c, inst.r0, 2)
+ThCScale == stage = 2 => CoeffScaleLaw(inst.fam, inst.x, inst.w, inst.a, inst.c, inst.r0, 2)
+ThRepl == stage = 2 => \A K \in {2, 3} : ReplLaw(inst.fam, inst.x, inst.w, inst.a, inst.c, inst.r0, K)
 ThScale == stage = 2 => \A t \in {2, 3} : ScaleLaw(inst.fam, inst.x, inst.w, inst.a, inst.c, inst.r0, t)
 \* the stationary point really is the least squares optimum at alpha: c equals the oracle's coefficients
 ThCoeffIsC == stage = 2 =>
@@ -90,5 +92,6 @@ Export == stage = 2 =>
   IN PrintT(<<"VPST", ToJson([fam |-> f, x |-> inst.x, w |-> inst.w, a |-> inst.a, c |-> inst.c, r0 |-> inst.r0,
         y |-> Yv, phi |-> Ph, dphi |-> [k \in 1..f.P |-> DPhi(f, inst.x, inst.a, k)],
         nu |-> out.nu, rr |-> out.rr, detH |-> out.detH, adj |-> out.adj, quad |-> out.quad, rw |-> out.rw,
-        tq |-> TQ(out.nu), pnum |-> PNum])>>)
+        tq |-> TQ(out.nu), pnum |-> PNum,
+        repl |-> SetToSeq({[k |-> K, nu |-> ReplNu(f, inst.x, K), tq |-> TQ(ReplNu(f, inst.x, K))] : K \in ReplChoices(f, inst.x)})])>>)
 =======================================================================
